@@ -25,6 +25,43 @@ var shardK, shardN = func() (int, int) {
 	return k, n
 }()
 
+// announce file: a shard worker records (ParFor sequence number, index) of the case it is about
+// to run, so that a worker killed by the runtime (out of memory, stack overflow) can be attributed
+// to the input that killed it.
+var announceFile = func() *os.File {
+	p := os.Getenv("VERIF_ANNOUNCE")
+	if p == "" {
+		return nil
+	}
+	f, err := os.OpenFile(p, os.O_CREATE|os.O_WRONLY|os.O_TRUNC, 0o644)
+	if err != nil {
+		return nil
+	}
+	return f
+}()
+
+var parforSeq int64
+
+func announce(seq, i int64) {
+	if announceFile == nil {
+		return
+	}
+	var b [16]byte
+	for k := 0; k < 8; k++ {
+		b[k] = byte(seq >> (8 * k))
+		b[8+k] = byte(i >> (8 * k))
+	}
+	announceFile.WriteAt(b[:], 0)
+}
+
+// Death describes a shard worker that did not finish.
+type Death struct {
+	Shard  int
+	Seq    int64 // which ParFor call of the run (1-based), 0 if none was announced
+	Index  int64
+	Output string
+}
+
 // IsShardWorker reports whether this process is one shard of a sharded run.
 func IsShardWorker() bool { return shardN > 1 }
 
@@ -121,51 +158,69 @@ func (c *Ctx) mergePartial(p *partial, first bool) {
 
 // RunSharded re-executes this binary as n single-threaded shard processes and merges their
 // results into c.  A worker that dies is a harness error (returns an error), never a verdict.
-func (c *Ctx) RunSharded(n int, args []string) error {
+func (c *Ctx) RunSharded(n int, args []string) ([]Death, error) {
 	dir := filepath.Join(Root, ".build", "shards")
 	if b := os.Getenv("VERIF_BUILD"); b != "" {
 		dir = filepath.Join(b, "shards")
 	}
 	if err := os.MkdirAll(dir, 0o755); err != nil {
-		return err
+		return nil, err
 	}
 	paths := make([]string, n)
+	ann := make([]string, n)
 	errs := make([]error, n)
 	outs := make([][]byte, n)
 	var wg sync.WaitGroup
 	for k := 0; k < n; k++ {
 		paths[k] = filepath.Join(dir, fmt.Sprintf("%s-%s-%d-%d.json", c.ID, c.Tier, os.Getpid(), k))
+		ann[k] = paths[k] + ".announce"
 		wg.Add(1)
 		go func(k int) {
 			defer wg.Done()
 			cmd := exec.Command(os.Args[0], args...)
 			cmd.Env = append(os.Environ(), fmt.Sprintf("VERIF_SHARD=%d", k), fmt.Sprintf("VERIF_NSHARDS=%d", n),
-				"GOMAXPROCS=1", "VERIF_PARTIAL="+paths[k])
+				"GOMAXPROCS=1", "VERIF_PARTIAL="+paths[k], "VERIF_ANNOUNCE="+ann[k])
 			outs[k], errs[k] = cmd.CombinedOutput()
 		}(k)
 	}
 	wg.Wait()
 	defer func() {
-		for _, p := range paths {
-			os.Remove(p)
+		for k := range paths {
+			os.Remove(paths[k])
+			os.Remove(ann[k])
 		}
 	}()
+	var deaths []Death
+	first := true
 	for k := 0; k < n; k++ {
-		if errs[k] != nil {
-			return fmt.Errorf("shard %d failed: %v\n%s", k, errs[k], outs[k])
-		}
-		b, err := os.ReadFile(paths[k])
-		if err != nil {
-			return fmt.Errorf("shard %d left no result: %v\n%s", k, err, outs[k])
+		b, rerr := os.ReadFile(paths[k])
+		if errs[k] != nil || rerr != nil {
+			d := Death{Shard: k, Output: tail(string(outs[k]), 4000)}
+			if ab, err := os.ReadFile(ann[k]); err == nil && len(ab) >= 16 {
+				for i := 7; i >= 0; i-- {
+					d.Seq = d.Seq<<8 | int64(ab[i])
+					d.Index = d.Index<<8 | int64(ab[8+i])
+				}
+			}
+			deaths = append(deaths, d)
+			continue
 		}
 		var p partial
 		if err := json.Unmarshal(b, &p); err != nil {
-			return fmt.Errorf("shard %d result unreadable: %v", k, err)
+			return nil, fmt.Errorf("shard %d result unreadable: %v", k, err)
 		}
-		c.mergePartial(&p, k == 0)
+		c.mergePartial(&p, first)
+		first = false
 	}
 	c.mu.Lock()
 	c.extra["shard_processes"] = n
 	c.mu.Unlock()
-	return nil
+	return deaths, nil
+}
+
+func tail(s string, n int) string {
+	if len(s) > n {
+		return s[len(s)-n:]
+	}
+	return s
 }
